@@ -81,7 +81,7 @@ def split_walk(walk, n):
     return [walk]
 
 
-def online_cover(g, init, apply_fn, project, max_steps=4000, rnd=None, random_steps=0):
+def online_cover(g, init, apply_fn, project, max_steps=4000, rnd=None, random_steps=0, free_guard=None, free_steps=0):
     """Conformance walk under a nondeterministic (over-approximating) specification graph.
 
     The walker drives the real system: it picks an action label at the current spec state, applies
@@ -112,6 +112,8 @@ def online_cover(g, init, apply_fn, project, max_steps=4000, rnd=None, random_st
             pool = [sid for sid, st in g.states.items() if project(st) == proj]
             if not pool:
                 return False
+            # (the jump is a transition the real system takes: later plans may lead through it)
+            observed[(cur, lab)] = pool[0]
             cur = pool[0]
             return True
         observed[(cur, lab)] = match[0]
@@ -157,10 +159,24 @@ def online_cover(g, init, apply_fn, project, max_steps=4000, rnd=None, random_st
         if not ok:
             break
     covered = len(tried)
+    lost = False
     for _ in range(random_steps):
         labs = list(by_label.get(cur, {}).keys())
         if not labs or rnd is None:
             break
         if not do(rnd.choice(labs)):
+            lost = True
             break
-    return {"steps": steps, "pairs_tried": covered, "left_model": left}
+    # the real system is in a state no design of the model knows: the model cannot steer any further, but the
+    # calls' own oracle still judges - keep going with random actions of the alphabet that the harness's guard
+    # (the alphabet's enabling conditions, evaluated on the real object) allows
+    free = 0
+    if (lost or (left and not [sid for sid, st in g.states.items() if project(st) == left[-1][2]])) and free_guard is not None and rnd is not None:
+        alphabet = sorted({lab for d in by_label.values() for lab in d}, key=repr)
+        while free < free_steps:
+            lab = rnd.choice(alphabet)
+            if not free_guard(lab[0], lab[1]):
+                continue
+            apply_fn(lab[0], lab[1])
+            free += 1
+    return {"steps": steps + free, "pairs_tried": covered, "left_model": left, "free_steps": free}
